@@ -281,6 +281,7 @@ func checkC08(r *Run) {
 	r.Rule("C08.R7.publish", "Codec.update puts the new channel-set state into the updates channel before it raises the updateAvailable flag: processUpdates clears the flag and drains the channel, so a flag raised first can be consumed while the channel is still empty and the state is stranded (the encoder stays on the stale key set)", 1)
 	r.Rule("C08.R6.states", "the codec's backlog of channel-set states only grows: Codec.mu.states is allocated by the constructor and extended by processUpdates, and no entry is deleted or replaced (a frame encoded k updates ago must still decode)", 2)
 	r.Rule("C08.R5.fullread", "binary.Reader takes bytes from its underlying io.Reader only through io.ReadFull: the decoder discards the byte counts and assumes every read filled its buffer, and stream transports deliver messages in chunks", 4)
+	r.Rule("C08.R8.update", "the WebSocket framer codec decides from the decoded message alone whether a request renegotiates the channel set: a request decoder returns without Codec.Update only across a test of the message (its type, its command, an empty key list), never of codec state - the peer counts one state per request it sent, and a request the server skips leaves the two sequence numbers apart for good", 3)
 	r.Rule("C08.R3.nopanic", "no builtin panic / lo.Must is reachable through static calls from the decode entry points", 4)
 
 	checkLayout(r, p)
@@ -289,6 +290,7 @@ func checkC08(r *Run) {
 	checkFullReads(r, p)
 	checkStateBacklog(r, p)
 	checkUpdatePublishOrder(r, p)
+	checkRequestUpdates(r, p)
 	if less := p.Func(codecPkg, "sorter", "Less"); less == nil {
 		r.Undecide("C08.R4: sorter.Less not found")
 	} else {
@@ -1009,4 +1011,63 @@ func checkUpdatePublishOrder(r *Run, p *Prog) {
 	}
 	r.ObPath("C08.R7.publish", "Codec.update publishes the state before raising the flag", p.Position(fn.Pos()), path == nil,
 		"the flag is raised before the state is in the channel: a processUpdates that runs in between clears the flag, finds nothing, and nothing re-raises it", path)
+}
+
+// checkRequestUpdates decides C08.R8.
+func checkRequestUpdates(r *Run, p *Prog) {
+	const pk = "synnax/pkg/transport/http/framer"
+	n := 0
+	for _, fn := range p.FuncsOfPkg(pk) {
+		if fn.Decl == nil || fn.Body == nil || !strings.Contains(recvName(fn.Decl), "Codec") {
+			continue
+		}
+		isUpdate := func(node ast.Node) bool {
+			return nodeHasCall(fn, node, func(o types.Object, _ *ast.CallExpr) bool {
+				f, ok := o.(*types.Func)
+				return ok && f.Name() == "Update" && recvNamed(f) == "Codec"
+			})
+		}
+		c := p.CFG(fn)
+		if len(c.NodesWhere(isUpdate)) == 0 {
+			continue
+		}
+		n++
+		var recv types.Object
+		if fn.Decl.Recv != nil && len(fn.Decl.Recv.List) == 1 && len(fn.Decl.Recv.List[0].Names) == 1 {
+			recv = fn.Pkg.TypesInfo.Defs[fn.Decl.Recv.List[0].Names[0]]
+		}
+		// no condition that reads codec state lies on a path to a return that accepts the
+		// request without Update
+		var path []string
+		for _, b := range c.G.Blocks {
+			cond := Cond(b)
+			if cond == nil {
+				continue
+			}
+			usesRecv := false
+			ast.Inspect(cond, func(y ast.Node) bool {
+				if id, ok := y.(*ast.Ident); ok && recv != nil && objOf(fn, id) == recv {
+					usesRecv = true
+				}
+				return true
+			})
+			if !usesRecv {
+				continue
+			}
+			for si, succ := range b.Succs {
+				_ = si
+				q, vis := c.ReachAvoiding([]Point{{succ, -1}}, nil, isUpdate)
+				for _, ex := range c.Exits() {
+					if ex.Return != nil && vis[ex.P] && mayReturnNilError(fn, ex.Return) {
+						path = append([]string{posOf(p, cond) + ": " + types.ExprString(cond)}, q.PathTo(ex.P)...)
+					}
+				}
+			}
+		}
+		r.ObPath("C08.R8.update", fn.Name+" skips Codec.Update only on a test of the decoded message", p.Position(fn.Pos()), path == nil,
+			"a request is accepted without renegotiating the channel set on a path that does not depend on the message alone", path)
+	}
+	if n < 3 {
+		r.Undecide("C08.R8: only %d request decoders calling Codec.Update found (expected >= 3)", n)
+	}
 }
